@@ -249,9 +249,6 @@ class SymSet:
     def count(self):
         return z3.Sum([z3.IntVal(0)] + [z3.If(b, 1, 0) for b in self.bits.values()] + [z3.If(b, 1, 0) for b in self.frac.values()])
 
-    def __len__(self):
-        raise core.Unsupported('len() of a SymSet reached CPython (module not patched)')
-
     def __bool__(self):
         return bool(SB(z3.Or([FALSE] + list(self.bits.values()) + list(self.frac.values()))))
 
